@@ -300,7 +300,16 @@ def gen_y(rng, n, style=None):
 
 
 def gen_w(rng, n, allow_none=True):
-    style = rng.choice((["none"] if allow_none else []) + ["ones", "int", "int", "dyadic", "float", "first", "tiny", "hugefirst"])
+    style = rng.choice((["none"] if allow_none else []) + ["ones", "int", "int", "dyadic", "float", "first", "tiny", "hugefirst", "meanone"])
+    if style == "meanone" and n >= 2:
+        # genuinely different weights normalised to mean one: their sum is exactly n
+        ws = [Fraction(1)] * n
+        idx = list(range(n))
+        rng.shuffle(idx)
+        for a, b in zip(idx[0::2], idx[1::2]):
+            d = rng.choice([Fraction(1, 2), Fraction(1, 4), Fraction(3, 4)])
+            ws[a], ws[b] = 1 - d, 1 + d
+        return [str(v) for v in ws]
     if style == "hugefirst":
         ws = [rng.randint(1, 3) for _ in range(n)]
         if n:
